@@ -84,6 +84,20 @@ func FieldsFromStruct(t reflect.Type) TypesTable {
 
 			types[f.Name] = Tag{Type: f.Type}
 		}
+
+		// Resolve every collected name the way Go (and the run-time lookup by
+		// reflection) does: the shallowest field wins whatever the declaration
+		// order, two fields at the same depth are ambiguous, and an unexported
+		// field cannot be reached.
+		for name := range types {
+			if f, ok := t.FieldByName(name); !ok {
+				types[name] = Tag{Ambiguous: true}
+			} else if f.PkgPath != "" {
+				delete(types, name)
+			} else {
+				types[name] = Tag{Type: f.Type}
+			}
+		}
 	}
 
 	return types
